@@ -1332,10 +1332,26 @@ class Evaluator:
                 out[k] = App("store", (a, b.args[1], ite(c, self.lib.getitem(self, a, b.args[1]), b.args[2])))
             elif isinstance(a, V) and isinstance(b, V):
                 out[k] = ite(c, a, b)
+            elif isinstance(a, Obj) and isinstance(b, Obj) and a.cls is b.cls and getattr(a, "nt_fields", None) and a.nt_fields == getattr(b, "nt_fields", None) \
+                    and all(isinstance(a.attrs.get(f_), V) and isinstance(b.attrs.get(f_), V) for f_ in a.nt_fields):
+                # two immutable records of one class: merged field by field
+                m = Obj(a.cls, {f_: (a.attrs[f_] if a.attrs[f_] == b.attrs[f_] else ite(c, a.attrs[f_], b.attrs[f_])) for f_ in a.nt_fields})
+                m.nt_fields = list(a.nt_fields)
+                out[k] = m
             else:
                 out[k] = Top("merge of objects")
         fr.vars = out
         return None
+
+    def _havoc_loop_var(self, tag, n, cur):
+        # a loop-carried immutable record (typing.NamedTuple of plain values) is havocked field by field, so that the
+        # rules see its fields as separate loop state; anything else becomes one fresh symbol
+        if isinstance(cur, Obj) and getattr(cur, "nt_fields", None) is not None and cur.nt_fields \
+                and all(isinstance(cur.attrs.get(f), V) for f in cur.nt_fields):
+            new = Obj(cur.cls, {f: self.fresh("%s:%s.%s" % (tag, n, f), ("loopcarried",)) for f in cur.nt_fields})
+            new.nt_fields = list(cur.nt_fields)
+            return new
+        return self.fresh(tag + ":" + n, ("loopcarried",))
 
     def st_While(self, st, fr):
         # evaluate test once; if it folds false skip, else one parametric iteration with
@@ -1344,9 +1360,10 @@ class Evaluator:
         t0 = self.truth(self.eval(st.test, fr))
         if isinstance(t0, Const) and not t0.value:
             return self.exec_block(st.orelse, fr)
+        init = {n: fr.vars.get(n) for n in assigned}
         for n in assigned:
             if n in fr.vars:
-                fr.vars[n] = self.fresh("while:" + n, ("loopcarried",))
+                fr.vars[n] = self._havoc_loop_var("while", n, fr.vars[n])
         self.event("while", node=st, assigned=sorted(assigned))
         test = self.eval(st.test, fr)
         sig = None
@@ -1355,9 +1372,9 @@ class Evaluator:
         pre_vals = {n: fr.vars.get(n) for n in assigned}
         sig = self.exec_block(st.body, fr)
         self.pc = [x for x in self.pc if x is not marker]
-        self.event("while_iter", node=st, test=test, pre=pre_vals, post={n: fr.vars.get(n) for n in assigned}, sig=sig)
+        self.event("while_iter", node=st, test=test, pre=pre_vals, post={n: fr.vars.get(n) for n in assigned}, sig=sig, init=init)
         for n in assigned:
-            fr.vars[n] = self.fresh("afterwhile:" + n, ("loopcarried",))
+            fr.vars[n] = self._havoc_loop_var("afterwhile", n, pre_vals.get(n))
         if sig is not None and sig[0] == "return":
             # a return inside the loop body: treat as one possible outcome
             if self.decide(App("loop_returns", (Const(st.lineno),)), st):
@@ -1592,6 +1609,25 @@ class Evaluator:
                 for k in [k for k, (p_, _i) in fr.views.items() if p_ == t.id]:
                     del fr.views[k]
             fr.vars[t.id] = v
+        elif isinstance(t, (ast.Tuple, ast.List)) and sum(isinstance(e, ast.Starred) for e in t.elts) == 1:
+            # a, b, *rest = value: concrete tuples / lists / records only
+            if isinstance(v, Obj) and getattr(v, "nt_fields", None) is not None:
+                src = [v.attrs[f] for f in v.nt_fields]
+            elif isinstance(v, Tup) and not any(isinstance(i, Star) for i in v.items):
+                src = list(v.items)
+            elif isinstance(v, Lst) and not v.pappends and not v.unknown:
+                src = list(v.items)
+            else:
+                raise AnalysisError("starred unpacking of %r" % (v,))
+            k = next(i for i, e in enumerate(t.elts) if isinstance(e, ast.Starred))
+            after = len(t.elts) - k - 1
+            if len(src) < len(t.elts) - 1:
+                raise RaiseSignal(App("ValueError", (Const("unpack"),)), t)
+            for e, x in zip(t.elts[:k], src[:k]):
+                self.assign(e, x, fr)
+            self.assign(t.elts[k].value, Lst(src[k:len(src) - after]), fr)
+            for e, x in zip(t.elts[k + 1:], src[len(src) - after:] if after else []):
+                self.assign(e, x, fr)
         elif isinstance(t, (ast.Tuple, ast.List)):
             items = self.unpack(v, len(t.elts), t)
             for e, x in zip(t.elts, items):
